@@ -21,7 +21,8 @@ RULE = (
     "against the listing specification, every recorded insert/delete against the Lean IR model, the interval "
     "positions used by _apply_modifications against the running-offset model; plus modules whose .text interval "
     "begins with 1-5 bytes that no block covers (blocks that do not start at offset 0 of their interval) with one or "
-    "two raw-byte requests, judged by a direct splice of the bytes"
+    "two raw-byte requests, judged by a direct splice of the bytes; plus data intervals whose blocks overlap (nested "
+    "and staggered views) with one insertion or deletion, judged the same way"
 )
 ASSUMPTIONS = [
     "x86-64 ELF only and one code section in the generated modules (the byte bookkeeping is ISA independent; the nop used for padding is the only ISA-specific byte, taken from ABI.nop())",
@@ -115,15 +116,80 @@ def check_lead(ctx, g):
         ctx.violation("C01:lead:bytes", ".text holds %s, the listing gives %s (the first %d bytes are covered by no block)" % (got.hex(), bytes(want).hex(), case["lead"]), payload)
 
 
+def gen_overlap(rng):
+    """a data interval whose blocks overlap (views into one table: an outer block, blocks nested in it, a block that
+    starts inside it), one request in one of them"""
+    n = rng.choice([8, 12, 16])
+    blocks = [[0, n]]
+    a = rng.randint(1, n // 2 - 1)
+    b = rng.randint(a + 1, n // 2 + 1)
+    blocks.append([a, b - a])
+    c = rng.randint(b, n - 2)
+    blocks.append([c, rng.randint(1, n - c)])
+    if rng.random() < 0.4:
+        blocks.append([n, rng.choice([2, 4])])       # a block behind the outer one
+    total = max(o + s for o, s in blocks)
+    which = rng.randrange(len(blocks))
+    off = rng.randint(0, blocks[which][1])
+    if rng.random() < 0.7 or off == blocks[which][1]:
+        edit = {"op": "insert", "block": which, "off": off, "bytes": [0xEE, 0xEF][: rng.randint(1, 2)]}
+    else:
+        edit = {"op": "delete", "block": which, "off": off, "len": rng.randint(1, blocks[which][1] - off)}
+    return {"overlap_case": True, "blocks": blocks, "total": total, "edit": edit}
+
+
+def check_overlap(ctx, g):
+    import logging
+
+    import gtirb
+    import gtirb_functions
+    from gtirb_test_helpers import add_code_block, add_section, add_text_section, create_test_module
+
+    from gtirb_rewriting import RewritingContext
+
+    logging.disable(logging.CRITICAL)
+    ctx.case(g, sample=g if len(ctx.samples) < 6 else None, nontrivial=True)
+    ctx.count("overlapping-blocks")
+    ir, m = create_test_module(gtirb.Module.FileFormat.ELF, gtirb.Module.ISA.X64)
+    _, tbi = add_text_section(m, address=0x1000)
+    add_code_block(tbi, b"\xc3")
+    _, bi = add_section(m, ".data", address=0x4000)
+    content = bytes(0x41 + i for i in range(g["total"]))
+    bi.contents = content
+    bi.size = len(content)
+    blocks = [gtirb.DataBlock(offset=o, size=s, byte_interval=bi) for o, s in g["blocks"]]
+    e = g["edit"]
+    pos = g["blocks"][e["block"]][0] + e["off"]
+    want = content[:pos] + bytes(e.get("bytes", [])) + content[pos + e.get("len", 0):]
+    rc = RewritingContext(m, gtirb_functions.Function.build_functions(m))
+    if e["op"] == "insert":
+        rc.insert_at(blocks[e["block"]], e["off"], bytes(e["bytes"]))
+    else:
+        rc.delete_at(blocks[e["block"]], e["off"], e["len"])
+    try:
+        rc.apply()
+    except Exception as ex:  # noqa: BLE001
+        ctx.violation("C01:overlap:raises", "apply() raised %s: %s on a data interval with overlapping blocks %s" % (type(ex).__name__, str(ex)[:100], g["blocks"]), g)
+        return
+    sect = next(s for s in m.sections if s.name == ".data")
+    got = b"".join(bytes(x.contents) for x in sorted(sect.byte_intervals, key=lambda x: x.address))
+    if got != want:
+        ctx.violation("C01:overlap:bytes", ".data holds %r, the listing gives %r (blocks %s, request %s)" % (got, want, g["blocks"], e), g)
+
+
 def run(ctx):
     LE.run(ctx, "C01", 1500, 40000)
+    for _ in range(ctx.budget(100, 2500)):
+        check_overlap(ctx, gen_overlap(ctx.rng))
     for _ in range(ctx.budget(120, 3000)):
         check_lead(ctx, gen_lead(ctx.rng))
 
 
 def replay(ctx, payload):
     case = payload.get("case", payload)
-    if isinstance(case, dict) and case.get("lead_case"):
+    if isinstance(case, dict) and case.get("overlap_case"):
+        check_overlap(ctx, case)
+    elif isinstance(case, dict) and case.get("lead_case"):
         check_lead(ctx, case)
     else:
         LE.replay(ctx, "C01", payload)
